@@ -20,7 +20,7 @@ RULE = ("Random event dictionaries: every subset/order of data/event/id/retry; d
         "of 1-6 events through the real ASGI (virtual time, pings interleaved) and WSGI (thread relay, 20 ms pings) SendEventResponse. "
         "Non-trivial = data contains a line/paragraph separator, is empty, or starts with space/colon, or the event lacks data; distinct = "
         "(event dict, charset).")
-RULE += ' Also: two streams written at the same time by two server threads (thread switch placed between library lines); text that is not in a Unicode normal form (decomposed, compatibility, singleton characters) in data, names and ids; every event that carries a retry writes it (the retry fields of the stream, in order); the same dict object yielded repeatedly, re-iterable producers served twice by one response object, data lines of 70 000 characters, a WSGI client that takes several ping intervals per chunk. WSGI producers that raise right after their last event (every event yielded before must arrive); a client that hangs up after 4x more blocks than events were yielded (an endless stream is reported, not waited for). ASGI: 12 events under every pace (producer giving way 0-4 turns between events x send() taking 0-5 loop turns); one response object answering two overlapping ASGI requests that finish at different times; WSGI: a relay that waits four ping intervals for a free pool worker.'
+RULE += ' Also: two streams written at the same time by two server threads (thread switch placed between library lines); text that is not in a Unicode normal form (decomposed, compatibility, singleton characters) in data, names and ids; every event that carries a retry writes it (the retry fields of the stream, in order); the same dict object yielded repeatedly, re-iterable producers served twice by one response object, data lines of 70 000 characters, a WSGI client that takes several ping intervals per chunk. WSGI producers that raise right after their last event (every event yielded before must arrive); a client that hangs up after 4x more blocks than events were yielded (an endless stream is reported, not waited for). ASGI: 12 events under every pace (producer giving way 0-4 turns between events x send() taking 0-5 loop turns); one response object answering two overlapping ASGI requests that finish at different times; WSGI: a relay that waits four ping intervals for a free pool worker. Streams answering POST / PUT / PATCH / DELETE / OPTIONS; event names Message / MESSAGE / Error / OPEN; retry 2**31-1 / 2**31 / 2**32+5.'
 ASSUMPTIONS = [
     "data that ends in a line break may arrive with or without that last break (the statement does not say whether 'a\\n' has one or two lines); never with more",
     "events without a data key dispatch nothing by the standard; for them only the id/retry side effects and 'no event fired' are checked",
@@ -53,11 +53,11 @@ def gen_event(rng, charset):
             else:
                 ev[k] = "".join(rng.choice(ALPHA) for _ in range(rng.randrange(1, 7)))
         elif k == "event":
-            ev[k] = rng.choice(["e", "", "message", "a b", " lead", "x:y", "é", "update ", "e\tf", "data", "e\u2028f", "n\x85l", "v\x0bt", "f\x0cf", "g\x1dg", "e\u0301v", "\u212bngstrom", "e\x00v", "\x7f", "\x1b[0m"])  # (any character but CR and LF may be part of a name)  # (only CR and LF end a line)
+            ev[k] = rng.choice(["e", "", "message", "Message", "MESSAGE", "Error", "OPEN", "a b", " lead", "x:y", "é", "update ", "e\tf", "data", "e\u2028f", "n\x85l", "v\x0bt", "f\x0cf", "g\x1dg", "e\u0301v", "\u212bngstrom", "e\x00v", "\x7f", "\x1b[0m"])  # (any character but CR and LF may be part of a name)  # (only CR and LF end a line)
         elif k == "id":
             ev[k] = rng.choice(["1", "", "a b", " 7", "é", "0", "x:y", "id", "-1", "i\u2029d", "i\x85", "\x1c9", "i\u0301", "\u2126"]) + rng.choice(["", "", str(rng.randrange(1000))])
         else:
-            ev[k] = rng.choice([0, 1, 5, 3000, 10 ** 9, 2 ** 53 + 1, 10 ** 18 + 7, 2 ** 64 - 1])  # (any non-negative integer: digits only on the wire)
+            ev[k] = rng.choice([0, 1, 5, 3000, 10 ** 9, 2 ** 31 - 1, 2 ** 31, 2 ** 32 + 5, 2 ** 53 + 1, 10 ** 18 + 7, 2 ** 64 - 1])  # (any non-negative integer: digits only on the wire)
     # keep what the charset can encode
     for k in ("data", "event", "id"):
         if k in ev:
@@ -173,7 +173,9 @@ def asgi_stream(ctx, events, delays, charset, ping=1.0, share=False):
                     await asyncio.sleep(d)
                 yield ev if share else dict(ev)
         resp = asgi.SendEventResponse(gen(), ping_interval=ping, charset=charset)
-        r = drivers.run_asgi(resp, drivers.to_scope(drivers.Req()), the_loop=lp, timeout=10_000.0)  # virtual seconds
+        # an event stream may answer any method that has an answer body (a POST that is followed on its progress, a long PUT ...)
+        method = ("GET", "POST", "PUT", "PATCH", "DELETE", "OPTIONS", "GET")[(len(events) + len(repr(events))) % 7]
+        r = drivers.run_asgi(resp, drivers.to_scope(drivers.Req(method=method)), the_loop=lp, timeout=10_000.0)  # virtual seconds
     finally:
         lp.run_until_complete(lp.shutdown_asyncgens())
         lp.close()
@@ -223,8 +225,9 @@ def wsgi_stream(ctx, events, delays, charset, ping=0.02, share=False, consumer_d
             if then_raise:
                 raise ProducerFailed("the producer fails after its last event")
         resp = wsgi.SendEventResponse(gen(), ping_interval=ping, charset=charset)
+        method = ("GET", "POST", "PUT", "PATCH", "DELETE", "OPTIONS", "GET")[(len(events) + len(repr(events))) % 7]
         if consumer_delay:
-            env = drivers.to_environ(drivers.Req())
+            env = drivers.to_environ(drivers.Req(method=method))
             slow = resp
 
             def resp(environ, start_response):  # noqa: F811  (the same application, its chunks taken slowly)
@@ -233,7 +236,7 @@ def wsgi_stream(ctx, events, delays, charset, ping=0.02, share=False, consumer_d
                     time.sleep(consumer_delay)
             r = drivers.run_wsgi(resp, env)
         else:
-            r = drivers.run_wsgi(resp, drivers.to_environ(drivers.Req()))
+            r = drivers.run_wsgi(resp, drivers.to_environ(drivers.Req(method=method)))
     finally:
         pool.shutdown(wait=True)
     case = {"events": expected_events if share else events, "delays": delays, "charset": charset, "iface": "wsgi", "same_dict_objects_yielded": share,
